@@ -380,18 +380,27 @@ where
     M: Fn() -> (Vec<Body>, C) + Sync,
     C: FnOnce(&Exec) + Send,
 {
+    explore_until(bound, io_points, max_schedules, None, make)
+}
+
+/// As `explore`, but additionally stops (reporting `capped`) once `deadline` has passed.
+pub fn explore_until<M, C>(bound: usize, io_points: bool, max_schedules: u64, deadline: Option<std::time::Instant>, make: M) -> ExploreStats
+where
+    M: Fn() -> (Vec<Body>, C) + Sync,
+    C: FnOnce(&Exec) + Send,
+{
     use std::sync::atomic::{AtomicBool, AtomicU64, AtomicUsize, Ordering};
     let schedules = AtomicU64::new(0);
     let points = AtomicU64::new(0);
     let max_points = AtomicUsize::new(0);
     let capped = AtomicBool::new(false);
     let diverged = AtomicU64::new(0);
-    fn go<M, C>(prefix: Vec<usize>, bound: usize, io_points: bool, max: u64, make: &M, sc: &AtomicU64, pts: &AtomicU64, mp: &AtomicUsize, capped: &AtomicBool, dv: &AtomicU64)
+    fn go<M, C>(prefix: Vec<usize>, bound: usize, io_points: bool, max: u64, deadline: Option<std::time::Instant>, make: &M, sc: &AtomicU64, pts: &AtomicU64, mp: &AtomicUsize, capped: &AtomicBool, dv: &AtomicU64)
     where
         M: Fn() -> (Vec<Body>, C) + Sync,
         C: FnOnce(&Exec) + Send,
     {
-        if sc.load(Ordering::Relaxed) >= max {
+        if sc.load(Ordering::Relaxed) >= max || deadline.is_some_and(|d| std::time::Instant::now() > d) {
             capped.store(true, Ordering::Relaxed);
             return;
         }
@@ -425,11 +434,11 @@ where
         }
         rayon::scope(|s| {
             for t in tasks {
-                s.spawn(move |_| go(t, bound, io_points, max, make, sc, pts, mp, capped, dv));
+                s.spawn(move |_| go(t, bound, io_points, max, deadline, make, sc, pts, mp, capped, dv));
             }
         });
     }
-    go(Vec::new(), bound, io_points, max_schedules, &make, &schedules, &points, &max_points, &capped, &diverged);
+    go(Vec::new(), bound, io_points, max_schedules, deadline, &make, &schedules, &points, &max_points, &capped, &diverged);
     ExploreStats { schedules: schedules.load(Ordering::Relaxed), points: points.load(Ordering::Relaxed), max_points: max_points.load(Ordering::Relaxed), capped: capped.load(Ordering::Relaxed), diverged: diverged.load(Ordering::Relaxed) }
 }
 
